@@ -222,6 +222,34 @@ func selftest(verif string) int {
 			expect("R-DEAD "+t.name, len(selfComparisons(fn))+len(crossAppends(fn)) > 0, t.bad)
 		}
 	}
+	// R-TABLE partial copies, R-SCAN full scans (round 5)
+	for _, t := range []struct {
+		name string
+		bad  bool
+	}{{"CopyOK", false}, {"CopyBad", true}} {
+		if fn := fnOf(pkg + "." + t.name); fn != nil {
+			expect("R-TABLE "+t.name, len(partialCopies(fn)) > 0, t.bad)
+		}
+	}
+	for _, t := range []struct {
+		name string
+		bad  bool
+	}{{"ScanOK", false}, {"ScanBad", true}} {
+		if fn := fnOf(pkg + "." + t.name); fn != nil {
+			bad, n := false, 0
+			for _, b := range fn.Blocks {
+				for _, in := range b.Instrs {
+					if ia, ok := in.(*ssa.IndexAddr); ok {
+						n++
+						if ok2, _ := scansAll(ia); !ok2 {
+							bad = true
+						}
+					}
+				}
+			}
+			expect("R-SCAN "+t.name, bad || n == 0, t.bad)
+		}
+	}
 	if fails > 0 {
 		fmt.Printf("SELFTEST FAILED: %d engine fixtures gave the wrong verdict\n", fails)
 		return 2
